@@ -19,3 +19,8 @@ open Nitime.C12.Props
 #print axioms analyzer_retarget_spectra
 #print axioms analyzer_spectra_after_set_input
 #print axioms causality_scale_invariant
+#print axioms transfer_function_value_independent_of_sharing
+#print axioms transfer_inplace_distinct_objects
+#print axioms transfer_inplace_negation_counterexample
+#print axioms transfer_inplace_shared_offdiag
+#print axioms analyzer_spectra_after_failed_fit
